@@ -13,3 +13,5 @@ open(f,'w').write(s.replace(old,new))
 PY
 cd /verif && ./check "$ID" ${EXTRA:-} 2>&1 | grep -E "^(VIOLATION|OK|INCONCLUSIVE|  check=)" | cut -c1-400
 git -C /repo checkout -- "$2"
+# leave the harness binary built from the restored tree
+(cd /verif && ./check --build-only >/dev/null 2>&1)
